@@ -68,6 +68,9 @@ typedef FILE *hdf_file_t;
 #define HI_CREATE(p)      (fopen((p), "wb+"))
 #define HI_READ(f, b, n)  (((size_t)(n) == (size_t)fread((b), 1, (size_t)(n), (f))) ? SUCCEED : FAIL)
 #define HI_WRITE(f, b, n) (((size_t)(n) == (size_t)fwrite((b), 1, (size_t)(n), (f))) ? SUCCEED : FAIL)
+/* read up to n bytes, *got = number delivered; FAIL on an I/O error only, not at the end of the file */
+#define HI_READ_AVAIL(f, b, n, got)                                                                                  \
+    (*(got) = (int32)fread((b), 1, (size_t)(n), (f)), (ferror(f) ? FAIL : (clearerr(f), SUCCEED)))
 #define HI_CLOSE(f)       hi_close_stdio(&f)
 #define HI_FLUSH(f)       (fflush(f) == 0 ? SUCCEED : FAIL)
 #define HI_SEEK(f, o)     (fseek((f), (long)(o), SEEK_SET) == 0 ? SUCCEED : FAIL)
@@ -86,6 +89,7 @@ typedef int hdf_file_t;
 #define HI_FLUSH(f)       (SUCCEED)
 #define HI_READ(f, b, n)  (((n) == read((f), (char *)(b), (n))) ? SUCCEED : FAIL)
 #define HI_WRITE(f, b, n) (((n) == write((f), (char *)(b), (n))) ? SUCCEED : FAIL)
+#define HI_READ_AVAIL(f, b, n, got) ((*(got) = (int32)read((f), (char *)(b), (n))) < 0 ? FAIL : SUCCEED)
 #define HI_SEEK(f, o)     (lseek((f), (off_t)(o), SEEK_SET) != (-1) ? SUCCEED : FAIL)
 #define HI_SEEKEND(f)     (lseek((f), (off_t)0, SEEK_END) != (-1) ? SUCCEED : FAIL)
 #define HI_TELL(f)        (lseek((f), (off_t)0, SEEK_CUR))
